@@ -106,5 +106,48 @@ PROPS["C15"] = dict(
     ],
 )
 
+PROPS["C13"] = dict(
+    title="The built-in file server never serves anything outside its document roots",
+    level="model_checking",
+    trusted_base=COMMON_TB,
+    assumptions=["request paths contain no NUL byte (they arrive as C strings from the CGI environment)"],
+    outside="symlink resolution (realpath, kernel), stat/S_IFREG, directory listing output, percent-decoding (C15.b2), Windows separators",
+    obligations=[
+        dict(id="C13.a", harness="C13_fileserver.cpp", entry="h_c13a_normalize", ctors=False, cut=[STRING_REALLOC],
+             desc="file_server::normalize_path == independent stack normaliser ('.', '..', '//' resolved, never above '/')",
+             tiers=T(quick=dict(split=[list(range(0, 7))], unwind="p0+3", timeout=600, bounds="every path of length 0..6 (arbitrary non-NUL bytes)"),
+                     thorough=dict(split=[list(range(0, 11))], unwind="p0+3", timeout=3000, bounds="every path of length 0..10"))),
+        dict(id="C13.a2", harness="C13_fileserver.cpp", entry="h_c13a_normalize", ctors=False, cut=[STRING_REALLOC],
+             desc="normalize_path == reference normaliser on longer paths over the alphabet {'/', '.', 'a', 'b'} (the function only distinguishes '/', '.' and other bytes)",
+             tiers=T(quick=dict(defs=dict(VERIF_ALPHABET=1), split=[[8, 9]], unwind="p0+3", timeout=900, bounds="every path of length 8..9 over {/,.,a,b} starting with '/'"),
+                     thorough=dict(defs=dict(VERIF_ALPHABET=1), split=[[8, 9, 10, 11, 12]], unwind="p0+3", timeout=3000, bounds="every path of length 8..12 over {/,.,a,b}"))),
+        dict(id="C13.b", harness="C13_fileserver.cpp", entry="h_c13b_is_file_prefix", ctors=False,
+             desc="is_file_prefix(prefix,full) <=> prefix is a whole-component prefix of full",
+             tiers=T(quick=dict(split=[[0, 1, 2, 3], [0, 1, 2, 3, 4, 5]], unwind=8, timeout=600, bounds="every prefix of length 0..3 x every path of length 0..5"))),
+    ],
+)
+
+PROPS["C18"] = dict(
+    title="A crash while saving a file-backed session never yields a corrupted session",
+    level="model_checking",
+    trusted_base=COMMON_TB + ["crash model of the property: the 16-byte header reaches the disk as a unit, every data byte independently old/new (or arbitrary beyond the old length)",
+                              "zlib crc32 replaced by an ideal (collision-free on <=6 strings) checksum: models/stubs_crc_ideal.c"],
+    assumptions=["no CRC-32 collision between the torn image and a saved value (inherent 2^-32 strength of the guard, not decided here)",
+                 "write/read/lseek/time are the harness' disk-image model"],
+    outside="fcntl locking and the inode re-check loop, real fsync/sector behaviour, directory scan of gc (only its timestamp rule), vector<char>(size) allocation for absurd sizes in a corrupted header",
+    obligations=[
+        dict(id="C18.a", harness="C18_filestorage.cpp", entry="h_c18a_torn_write", ctors=False, clang_flags=["-fno-inline"], big_alloc=72, models=["stubs_crc_ideal.c"], cut=[STRING_REALLOC],
+             desc="save_to_file/write_all then read_from_file/read_all on every torn image: no session, or exactly the old, or exactly the new (timeout,data)",
+             tiers=T(quick=dict(split=[[0, 2, 3], [0, 1, 3], [0, 1], [0, 1], [0, 1, 2, 3]], unwind=26, unwindset={"F__ZN6cppcms8sessions20session_file_storage8read_allEiPvi.0": 4, "F__ZN6cppcms8sessions20session_file_storage9write_allEiPKvi.0": 3}, timeout=900, bounds="old data length in {0,2,3} x new length in {0,1,3} x {no old file, old file}; symbolic bytes, timeouts, clock, per-byte crash mask; header old/new and crash length enumerated"),
+                     thorough=dict(split=[[0, 1, 2, 3, 4, 6], [0, 1, 2, 3, 4, 6], [0, 1], [0, 1], [0, 1, 2, 3, 4, 5, 6]], unwind=26, unwindset={"F__ZN6cppcms8sessions20session_file_storage8read_allEiPvi.0": 4, "F__ZN6cppcms8sessions20session_file_storage9write_allEiPKvi.0": 3}, timeout=3000, bounds="old/new data lengths in {0,1,2,3,4,6}"))),
+        dict(id="C18.b", harness="C18_filestorage.cpp", entry="h_c18b_short_io", ctors=False, clang_flags=["-fno-inline"], big_alloc=72, models=["stubs_crc_ideal.c"], cut=[STRING_REALLOC],
+             desc="completed save with arbitrary partial write counts, load with arbitrary partial read counts (on the payload requests, <= 3 bytes): the saved value or no session",
+             tiers=T(quick=dict(split=[[0, 1, 2, 3]], unwind=20, unwindset={"F__ZN6cppcms8sessions20session_file_storage8read_allEiPvi.0": 7, "F__ZN6cppcms8sessions20session_file_storage9write_allEiPKvi.0": 6}, timeout=900, bounds="data length 0..3, every partial count per payload read/write call"))),
+        dict(id="C18.c", harness="C18_filestorage.cpp", entry="h_c18c_timestamp", ctors=False, clang_flags=["-fno-inline"],
+             desc="read_timestamp <=> 8-byte timestamp readable and >= now (gc/load never remove a live session on this rule)",
+             tiers=T(quick=dict(unwind=14, timeout=600, bounds="file length 0..12, arbitrary bytes, arbitrary clock"))),
+    ],
+)
+
 # properties for which no obligation can be built with this technique (reason required)
 NOT_APPLICABLE = {}
